@@ -68,12 +68,21 @@ def gen(S, tier):
         "src_seed": w.getrandbits(40), "exc": srcgen.gen_exc_spec(w),
         "verbosity": c.pick([0, 0, 1, 2, 4]), "utf8": c.chance(0.7), "ansi": c.chance(0.5),
         "simple": c.chance(0.12), "ignore": c.pick([None, None, "none", "some", "all"]),
-        "two_modules": w.chance(0.4), "fault": None,
+        "two_modules": w.chance(0.4), "fault": None, "prior_simple": False,
         # the same exception rendered a second time with another ignore pattern (a fresh trace object
         # and a fresh IO): what the first rendering left behind must not influence the second
         "ignore2": c.pick([None, None, None, "none", "some", "all"]),
         "same_trace": c.chance(0.5), "verbosity2": c.pick([1, 2, 4]),
+        # another exception rendered (on its own IO) before the one under test
+        "prior_exc": None,
     }
+    if w.chance(0.3):
+        sc["prior_exc"] = srcgen.gen_exc_spec(w)
+        if w.chance(0.5):
+            first, second = srcgen.interacting_pair(w)
+            sc["prior_exc"] = dict(sc["prior_exc"], msg=first, cause=None, context=None)
+            sc["exc"] = dict(sc["exc"], msg=second)
+        sc["prior_simple"] = w.chance(0.5)
     return sc
 
 
@@ -85,6 +94,8 @@ def sweep(sc, tier):
 def simplify(sc):
     if sc.get("ignore2") is not None:
         yield dict(sc, ignore2=None)
+    if sc.get("prior_exc"):
+        yield dict(sc, prior_exc=None)
     for k, v in (("recursion", 0), ("two_modules", False), ("ignore", None), ("utf8", True), ("ansi", False)):
         if sc[k] != v:
             yield dict(sc, **{k: v})
@@ -236,6 +247,21 @@ def _run(sc, res, log, store, r):
         if sc["two_modules"] and r.chance(0.5):
             store.inject(path_b, f if isinstance(f, str) else ("truncate", 1), mods[path_b])
 
+    # ---- an earlier report in the same process --------------------------------------------------
+    if sc.get("prior_exc"):
+        pexc = srcgen.make_exception(sc["prior_exc"])
+        try:
+            raise pexc
+        except BaseException as e_:
+            pexc = e_
+        pfm = AnsiFormatter() if sc["ansi"] else PlainFormatter()
+        pio = IO(Input(SimInputStream(log, [])), Output(SimOutputStream("pout", log, ansi=sc["ansi"]), pfm),
+                 Output(SimOutputStream("perr", log, ansi=sc["ansi"]), pfm))
+        try:
+            ExceptionTrace(pexc).render(pio, sc.get("prior_simple", False))
+        except Exception as e_:
+            res.violate("render_raises", "prior_render:" + type(e_).__name__, "an earlier rendering raised %s: %s" % (type(e_).__name__, str(e_)[:100]))
+        res.probe("prior_render")
     # ---- render -------------------------------------------------------------------------------
     out = SimOutputStream("out", log, ansi=sc["ansi"], utf8=sc["utf8"])
     err = SimOutputStream("err", log, ansi=sc["ansi"], utf8=sc["utf8"])
